@@ -23,6 +23,7 @@
 #include <fcntl.h>
 #include <sys/mman.h>
 #include <sys/stat.h>
+#include <unistd.h>
 #include <algorithm>
 #include <cerrno>
 #include <climits>
@@ -884,8 +885,10 @@ private:
             throw std::runtime_error("Open file error" + std::string(strerror(errno)));
 
         auto data = (K *) mmap(nullptr, file_bytes, PROT_READ, MAP_SHARED, fd, 0);
+        auto mmap_errno = errno;
+        ::close(fd); // the mapping stays valid after its descriptor is closed
         if (data == MAP_FAILED)
-            throw std::runtime_error("mmap error" + std::string(strerror(errno)));
+            throw std::runtime_error("mmap error" + std::string(strerror(mmap_errno)));
         return data;
     }
 
